@@ -180,6 +180,19 @@ def render_report(message: str, errors: List[str]) -> str:
     return "".join(parts)
 
 
+_SPLITLINES_BREAKS = "\x0b\x0c\x1c\x1d\x1e\x85\u2028\u2029\r"
+
+
+def loose_layout(text: str) -> str:
+    """
+    Forget the indentation after a character at which ``str.splitlines`` breaks.
+
+    A message may quote such a character from the model (form feed, U+2028, ...); how the
+    continuation is indented is layout that the property does not speak about.
+    """
+    return re.sub(f"([{_SPLITLINES_BREAKS}])[ ]*", r"\1", text)
+
+
 def headline_of(stderr: str) -> str:
     first = stderr.split("\n", 1)[0]
     first = re.sub(r"/[^ :]*", "PATH", first)
@@ -242,7 +255,7 @@ def judge_run(chk: harness.Check, name: str, text: str, target: str, result: dri
             chk.count("helper_reports_traced")
             if len(errors) >= 2:
                 chk.count("helper_reports_with_several_entries")
-            if rendered not in err:
+            if rendered not in err and loose_layout(rendered) not in loose_layout(err):
                 # load_model renders into a string that main writes out: still must be there
                 chk.violation(
                     "report-not-rendered-as-headline-and-bulleted-entries"
